@@ -245,6 +245,14 @@ def generate(rng, tier):
         c["kind"] = "directed"
         c["ctype"] = rng.random() < 0.35
         cases.append(c)
+    # renders with schema changes in between: every matrix case and 40% of the others
+    for c in cases:
+        if c.get("_xcfix") or rng.random() < 0.4:
+            add_warm(rng, c)
+            vals = {}
+            for p in c["warm"]["late"]:
+                vals["/".join(p)] = good_value(rng, dict(leaf_paths(c["fields"]))[p])
+            c["warm"]["values"] = vals
     # sensitive container fields: every kind x sensitive / not on the matrix cases (fixed places, seeded values), random on a
     # third of the others
     allk = [(k, sn) for k in XC_KINDS for sn in (True, False)]
@@ -544,9 +552,138 @@ def impl(c):
         shutil.rmtree(tmp, ignore_errors=True)
 
 
+# ---------------------------------------------------------------------------------------------
+# renders with schema changes in between.  c["warm"] = {"flips": [leaf paths], "late": [leaf paths]} (a path is the
+# tuple of keys from the root schema down to the leaf, through sub-configurations and item schemas alike):
+#   the schema is first built WITHOUT the late leaves and with the sensitive flag of the flipped leaves INVERTED;
+#   a first configuration is built and rendered (tree, document, with and without the mask);
+#   the late leaves are added to the schema (root / nested / item schema); the configuration under test is built and
+#   the history runs; it is rendered under the initial flags (checked by the oracle against those flags);
+#   the flags are switched to the declared ones (on -> off and off -> on) and the case proceeds as any other: the
+#   renders compared with the model are made with the declared flags, as a fresh look at the fields would give.
+# ---------------------------------------------------------------------------------------------
+def leaf_paths(fields, pre=()):
+    out = []
+    for k, nd in fields:
+        if nd["t"] == "leaf":
+            out.append((pre + (k,), nd))
+        else:
+            out += leaf_paths(nd["fields"], pre + (k,))
+    return out
+
+
+def add_warm(rng, c):
+    """choose the leaves whose flag is flipped between renders and the leaves added late; late leaves go to the end of
+    their schema (a field added to a schema is appended)"""
+    leaves = leaf_paths(c["fields"])
+    flips = [p for p, nd in leaves if rng.random() < 0.35]
+    cand = [p for p, nd in leaves if p not in flips and not nd["callable"] and nd["kind"][0] != "flag"]
+    late = rng.sample(cand, min(len(cand), rng.choice([0, 1, 1, 2, 3])))
+    for p in late:
+        fs = c["fields"]
+        for k in p[:-1]:
+            fs = dict(fs)[k]["fields"]
+        i = [k for k, _ in fs].index(p[-1])
+        fs.append(fs.pop(i))
+    c["warm"] = {"flips": flips, "late": late}
+
+
+def initial_fields(fields, warm, pre=(), drop_late=True):
+    """the schema description as it is before the changes: flipped flags inverted, late leaves absent (or kept)"""
+    out = []
+    for k, nd in fields:
+        p = pre + (k,)
+        if nd["t"] == "leaf":
+            if p in warm["late"] and drop_late:
+                continue
+            if p in warm["flips"]:
+                nd = dict(nd, sensitive=not nd["sensitive"])
+            out.append((k, nd))
+        else:
+            out.append((k, dict(nd, fields=initial_fields(nd["fields"], warm, p, drop_late))))
+    return out
+
+
+def schema_at(schema, fields, path):
+    """the real Schema holding the leaf addressed by `path`"""
+    for k in path[:-1]:
+        nd = dict(fields)[k]
+        fld = schema._fields[k]
+        schema = schema_of(fld if nd["t"] == "sub" else fld.field)
+        fields = nd["fields"]
+    return schema
+
+
+def run_warm(c):
+    warm = {"flips": [tuple(p) for p in c["warm"]["flips"]], "late": [tuple(p) for p in c["warm"]["late"]]}
+    mask = c["mask"]
+    info = {}
+    c["_warm"] = info
+    full = _base.Built(c)                                     # donor of the late field objects
+    b = _base.Built(dict(c, fields=initial_fields(c["fields"], warm)))
+    c["_built"] = b
+    # 1. first configuration, first renders (whatever the library remembers about the schema, it learns here)
+    try:
+        old = b.schema()
+        info["r0"] = [_render(lambda: old.to_tree(sensitive_mask=mask)), _render(lambda: old.to_tree()),
+                      _render(lambda: old.dumps(format="json", sensitive_mask=mask))]
+    except Exception as e:  # noqa
+        old = None
+        info["r0"] = [("err", _base.errkind(e))]
+    import itertools
+    b.counter = itertools.count()                             # callable defaults number their calls per configuration history
+    # 2. the schema grows
+    for p in warm["late"]:
+        fld = schema_at(full.schema, c["fields"], p)._fields[p[-1]]
+        schema_at(b.schema, c["fields"], p)._add_field(p[-1], fld)
+    # 3. the configuration under test
+    try:
+        root = b.schema(**copy.deepcopy(c["kw"]))
+    except Exception as e:  # noqa
+        return (("err", _base.errkind(e)),)
+    c["_root"] = root
+    for ps, o in c["ops"]:
+        _base.apply_op(root, ps, o)
+    # 4. rendered under the initial flags
+    info["fields1"] = initial_fields(c["fields"], warm, drop_late=False)
+    info["plain1"] = _render(lambda: root.to_tree())
+    info["masked1"] = _render(lambda: root.to_tree(sensitive_mask=mask))
+    info["json1"] = _render(lambda: root.dumps(format="json", sensitive_mask=mask))
+    info["file1"] = _saved(root, c["_tmp"], "warm1", "json", sensitive_mask=mask)
+    # 5. the flags change, both ways
+    for p in warm["flips"]:
+        fld = schema_at(b.schema, c["fields"], p)._fields[p[-1]]
+        fld.sensitive = not fld.sensitive
+    # 6. the first configuration (built BEFORE the additions) gets values for the new fields and is rendered again
+    if old is not None:
+        sets = []
+        for p in warm["late"]:
+            nd = dict(leaf_paths(c["fields"]))[p]
+            targets = [old]
+            for k in p[:-1]:
+                nxt = []
+                for t in targets:
+                    v = t._data.get(k)
+                    nxt += [v] if _base.is_cfg(v) else [i for i in v if _base.is_cfg(i)] if isinstance(v, list) else []
+                targets = nxt
+            for t in targets:
+                try:
+                    setattr(t, p[-1], c["warm"].get("values", {}).get("/".join(p), nd["default"]))
+                    sets.append("ok")
+                except Exception as e:  # noqa
+                    sets.append(type(e).__name__)
+        info["old"] = old
+        info["old_sets"] = sets
+        info["old_plain"] = _render(lambda: old.to_tree())
+        info["old_masked"] = _render(lambda: old.to_tree(sensitive_mask=mask))
+        info["old_json"] = _render(lambda: old.dumps(format="json", sensitive_mask=mask))
+    return ("ok",)
+
+
 def _impl(c):
     from cincoconfig.core import ConfigFormat
-    r = _base.impl(c)                     # builds the schema and the configuration, runs the history (stashes _root)
+    # builds the schema and the configuration, runs the history (stashes _root)
+    r = run_warm(c) if c.get("warm") else _base.impl(c)
     if r[0] != "ok":
         return r                          # constructor rejected: (("err", kind),)
     root = c["_root"]
@@ -792,6 +929,44 @@ def oracle(c, obs):
     check_cfg(c["fields"], c["_root"], plain[1], masked[1], mask, "", bad, secrets, publics)
     if mask is None and not same(plain[1], masked[1]):
         bad.append("sensitive_mask=None changed the tree")
+    # renders made before the flags were switched / with the schema grown in between (implementation only)
+    w = c.get("_warm")
+    if w is not None:
+        for r in w.get("r0", []):
+            if r[0] != "ok":
+                bad.append("first render of the first configuration raised %r" % (r[1],))
+        if w["plain1"][0] != "ok" or w["masked1"][0] != "ok":
+            bad.append("render under the initial flags raised %r / %r" % (w["plain1"][1], w["masked1"][1]))
+        else:
+            wbad, wsec, wpub = [], [], []
+            check_cfg(w["fields1"], c["_root"], w["plain1"][1], w["masked1"][1], mask, "", wbad, wsec, wpub)
+            bad += ["render before the flag switch: " + m for m in wbad]
+            if w["json1"][0] == "ok":
+                if w["file1"][0] != "ok" or w["file1"][1] != w["json1"][1]:
+                    bad.append("render before the flag switch: save(json) is not dumps(json)")
+                if mask is not None:
+                    wtext = []
+                    flat_text(wpub, wtext)
+                    all_keys(c["fields"], wtext)
+                    wtext.append(mask)
+                    for p, s in wsec:
+                        if not any(s in t for t in wtext) and s.encode("utf-8") in w["json1"][1]:
+                            bad.append("render before the flag switch: the json document contains the value of sensitive field %s" % p)
+        if "old" in w:
+            if w["old_plain"][0] != "ok" or w["old_masked"][0] != "ok":
+                bad.append("configuration built before the schema grew: to_tree raised %r / %r" % (w["old_plain"][1], w["old_masked"][1]))
+            else:
+                wbad, wsec, wpub = [], [], []
+                check_cfg(c["fields"], w["old"], w["old_plain"][1], w["old_masked"][1], mask, "", wbad, wsec, wpub)
+                bad += ["configuration built before the schema grew: " + m for m in wbad]
+                if mask is not None and w["old_json"][0] == "ok":
+                    wtext = []
+                    flat_text(wpub, wtext)
+                    all_keys(c["fields"], wtext)
+                    wtext.append(mask)
+                    for p, s in wsec:
+                        if not any(s in t for t in wtext) and s.encode("utf-8") in w["old_json"][1]:
+                            bad.append("configuration built before the schema grew: the json document contains the value of sensitive field %s" % p)
     # configuration types (make_type) in place of nested schemas: same property, checked on the implementation
     v = c.get("_variant")
     if v is not None and "root" in v:
@@ -961,6 +1136,17 @@ def tags(c, obs):
         t.add("secret-bytes-searched")
     for fmt in c.get("_files", []):
         t.add("file-saved:" + fmt)
+    if c.get("warm"):
+        t.add("renders-with-schema-changes")
+        decl = dict(leaf_paths(c["fields"]))
+        for p in c["warm"]["flips"]:
+            nd = decl[tuple(p)]
+            t.add("flag-switched-%s@%s" % ("on" if nd["sensitive"] else "off", "root" if len(p) == 1 else "deeper"))
+        for p in c["warm"]["late"]:
+            nd = decl[tuple(p)]
+            t.add("field-added-late:%s@%s" % ("sensitive" if nd["sensitive"] else "public", "root" if len(p) == 1 else "deeper"))
+        if "ok" in c.get("_warm", {}).get("old_sets", []):
+            t.add("old-configuration-given-late-values")
     v = c.get("_containers")
     if v is not None:
         t.add("container-variant" if "root" in v else "container-variant-ctor-rejected")
